@@ -24,6 +24,10 @@ REST_FAMILIES = [
     ['<w:lang w:val="en-US"/>', '<w:lang w:val="en-US" w:eastAsia="ja-JP"/>'],
     ['<w:sz w:val="28"/>', '<w:sz w:val="24"/>'],
     ['<w:u w:val="single"/>', '<w:u w:val="single" w:color="FF0000"/>'],
+    # same formatting now, different tracked formatting-change records (or none)
+    ['<w:color w:val="0000FF"/><w:rPrChange w:id="9901" w:author="Bob" w:date="2024-01-05T10:00:00Z"><w:rPr/></w:rPrChange>',
+     '<w:color w:val="0000FF"/><w:rPrChange w:id="9902" w:author="Carol Ann" w:date="2024-02-11T09:30:00Z"><w:rPr><w:i/></w:rPr></w:rPrChange>',
+     '<w:color w:val="0000FF"/>'],
 ]
 ONOFF = [None, None, None, "", "1", "0"]
 OPAQUE_ATOMS = ['<w:sym w:font="Symbol" w:char="F0B7"/>', "<w:softHyphen/>",
